@@ -2,7 +2,7 @@ From Coq Require Import List NArith ZArith Permutation Sorting.Sorted.
 Require mathcomp.algebra.mxalgebra mathcomp.algebra.matrix mathcomp.algebra.rat.
 Require SK.lib.RankBridge SK.proof.C17_Rank.
 From SK Require Import lib.IRSortKeys lib.C17_Farkas model.C17_Model proof.C17_Proof model.C17_NodeModel proof.C17_Nodes
-  model.C17_IntLaws proof.C17_IntLawsProof.
+  model.C17_IntLaws proof.C17_IntLawsProof model.C17_RawModel proof.C17_Raw.
 Import ListNotations.
 
 (** (1) build_S: one row per species, one column per reaction. *)
@@ -208,3 +208,46 @@ Theorem C17_integer_laws_columns :
   forall k col, nth_error cols k = Some col -> nth_error (int_laws tol cols) k = Some (min_int_vec tol col).
 Proof. exact int_laws_columns. Qed.
 Print Assumptions C17_integer_laws_columns.
+
+(** Attribute layer (round 5; model coq/model/C17_RawModel.v: _split_species_reactions, the label fall-back, the end-point and
+    role / stoich reading of build_S_minus_plus on a caller-supplied graph whose nodes and edges carry only SOME of the documented
+    attributes).  Everything the code computes from such a graph goes through [normalise]; and [normalise] — hence the labels, index
+    dictionaries and matrices, and whether KeyError is raised — depends only on: each node's identifier, its two classification
+    tests (kind == "species" or bipartite == 0 / kind == "reaction" or bipartite == 1) and its EFFECTIVE label (the label, else
+    str(node)); each edge's end points, role and EFFECTIVE coefficient (stoich, else 1).  So it does not matter which of kind /
+    bipartite carries the classification, whether a label is written out or falls back to the identifier, or whether a coefficient 1
+    is written out. *)
+Theorem C17_attributes_normalised :
+  forall (G G' : rgraph),
+  Forall2 (fun a b => rn_id a = rn_id b /\ species_like a = species_like b /\ reaction_like a = reaction_like b /\
+                      label_of a = label_of b) (rg_nodes G) (rg_nodes G') ->
+  Forall2 (fun e f => re_u e = re_u f /\ re_v e = re_v f /\ re_role e = re_role f /\
+                      match re_stoich e with Some c => c | None => 1%Z end =
+                      match re_stoich f with Some c => c | None => 1%Z end) (rg_edges G) (rg_edges G') ->
+  normalise G = normalise G' /\ key_error G = key_error G' /\ run_raw G = run_raw G'.
+Proof.
+  intros G G' Hn He. destruct (normalise_eqv G G' Hn He) as [H1 H2]. split; [exact H1|split; [exact H2|]].
+  exact (run_raw_eqv G G' Hn He).
+Qed.
+Print Assumptions C17_attributes_normalised.
+
+(** an edge without a usable role, or one that does not join a species-like to a reaction-like node (species-species,
+    reaction-reaction, an end without classification), contributes nothing *)
+Theorem C17_foreign_edges_ignored :
+  forall (G : rgraph) (e : redge), re_role e = None \/ ends G e = None -> arc_of G e = [].
+Proof. exact arc_of_ignored. Qed.
+Print Assumptions C17_foreign_edges_ignored.
+
+(** The fully annotated export seen through the attribute layer: for every network, every assignment of node identifiers in which a
+    species and a reaction never share an identifier, and whatever str(node) is, [normalise] of the raw export (kind, bipartite and
+    label on every node; role and stoich on every arc; reactant arcs species -> reaction, product arcs reaction -> species) IS the
+    node-level export of model/C17_NodeModel.v and no KeyError is raised.  With [C17_attributes_normalised] the same holds for every
+    graph that is attribute-equivalent to it (classification carried by kind or by bipartite only, labels left to the identifiers,
+    coefficients 1 left out), and [C17_S_node_ids] then gives: its labels and matrices are those of the label-level model. *)
+Theorem C17_raw_export_normalised :
+  forall (ids idr : str -> N) (strs : N -> str) (net : list rxn) (iso : list str),
+  (forall s e, In s (species_set net iso) -> In e net -> ids s <> idr (rid e)) ->
+  normalise (raw_export ids idr strs net iso) = export ids idr net iso /\
+  key_error (raw_export ids idr strs net iso) = false.
+Proof. exact normalise_raw_export. Qed.
+Print Assumptions C17_raw_export_normalised.
